@@ -1215,8 +1215,12 @@ func newOfficialRoaringIterator(data []byte) (*officialRoaringIterator, error) {
 	r.headers = data[headerOffset:offsetOffset]
 	// note: offsets are only actually used with the no-run headers.
 	if r.haveRuns {
-		// start out pointed at where the offsets would have been.
+		// start out pointed at where the offsets would have been; the
+		// offset header exists from noOffsetThreshold containers on.
 		r.currentDataOffset = uint32(offsetOffset)
+		if keys >= noOffsetThreshold {
+			r.currentDataOffset += 4 * keys
+		}
 	} else {
 		if offsetOffset+int(r.keys*4) > len(data) {
 			return nil, fmt.Errorf("insufficient data for offsets: want %d bytes, got %d", offsetOffset+int(r.keys*4), len(data))
@@ -5135,6 +5139,7 @@ func popcountAndSlice(s, m []uint64) uint64 {
 const (
 	serialCookieNoRunContainer = 12346 // only arrays and bitmaps
 	serialCookie               = 12347 // runs, arrays, and bitmaps
+	noOffsetThreshold          = 4     // with serialCookie, fewer containers have no offset header
 )
 
 func readOfficialHeader(buf []byte) (size uint32, containerTyper func(index uint, card int) byte, header, pos int, haveRuns bool, err error) {
@@ -5280,6 +5285,14 @@ func readOffsets(b *Bitmap, data []byte, pos int, keyN uint32) error {
 func readWithRuns(b *Bitmap, data []byte, pos int, keyN uint32) error {
 	if len(data) < pos+runCountHeaderSize {
 		return fmt.Errorf("offset incomplete: len=%d", len(data))
+	}
+	// With the run cookie the offset header is only present for at least
+	// noOffsetThreshold containers; the containers follow it sequentially.
+	if keyN >= noOffsetThreshold {
+		pos += 4 * int(keyN)
+		if len(data) < pos {
+			return fmt.Errorf("offset header incomplete: len=%d", len(data))
+		}
 	}
 	citer, _ := b.Containers.Iterator(0)
 	for i := 0; i < int(keyN); i++ {
